@@ -276,6 +276,26 @@ struct SCTr : public sigc::trackable
 static long sc_fp(long& x, std::string& s) { x += 40; s += "77"; return x; }
 static long& sc_ref(long& x) { return x; }
 static long& sc_ref2(long& x, long) { return x; }
+// a user type that is not derived from sigc::trackable but holds one as a member and says so with its own
+// visitor<> specialisation: mem_fun / std::ref on it are tracked through limit_reference -> visit_each
+struct MemberTracked { sigc::trackable tr; long calls = 0; long f() { return ++calls; } long g(long x) { return x + 1; } };
+namespace sigc
+{
+template <>
+struct visitor<MemberTracked>
+{
+  template <typename T_action>
+  static void do_visit_each(const T_action& action, const MemberTracked& target) { sigc::visit_each(action, target.tr); }
+};
+}
+// a functor whose copy constructor can be made to throw
+struct CopyThrows
+{
+  long v; static inline bool armed = false;
+  explicit CopyThrows(long x) : v(x) {}
+  CopyThrows(const CopyThrows& o) : v(o.v) { if (armed) throw LeafThrow(); }
+  long operator()() const { return v; }
+};
 struct Verdict { long n = 0; };
 static Verdict g_verdict;
 struct RefAcc
@@ -283,6 +303,7 @@ struct RefAcc
   using result_type = Verdict&;
   template <class It> Verdict& operator()(It first, It last) const { long k = 0; for (; first != last; ++first) k += *first; g_verdict.n = k; return g_verdict; }
 };
+struct CallMT { long operator()(MemberTracked& m) const { return m.f(); } };
 static void fixed_signal_connect()
 {
   std::string out;
@@ -394,6 +415,29 @@ static void fixed_signal_connect()
     try { g.emit(t, 1); r += "n"; } catch (LeafThrow&) { r += "c"; }
     r += std::to_string(s1(t, 0));
     out += " T:" + r;
+  }
+  {
+    std::string r;
+    { auto* h = new MemberTracked; sigc::slot<long()> s = sigc::mem_fun(*h, &MemberTracked::f); long a = s(); delete h; r += std::to_string(a) + (s.empty() ? "e" : "L"); }
+    { auto* h = new MemberTracked; sigc::slot<long(long)> s = sigc::hide(sigc::mem_fun(*h, &MemberTracked::f)); delete h; r += (s.empty() ? "e" : "L"); }
+    { auto* h = new MemberTracked; sigc::signal<long(long)> g; g.connect(sigc::mem_fun(*h, &MemberTracked::g)); long a = g.emit(4); delete h; r += std::to_string(a) + std::to_string(g.size()); }
+    { auto* h = new MemberTracked; sigc::slot<long()> s = sigc::bind(CallMT(), std::ref(*h)); delete h; r += (s.empty() ? "e" : "L"); }
+    out += " U:" + r;
+  }
+  {
+    // a functor copy that throws during slot copy-assignment: the assignment fails as a whole, the destination keeps
+    // its functor and its blocking state
+    sigc::slot<long()> dst = CopyThrows(7);
+    sigc::slot<long()> src = CopyThrows(9);
+    src.block();
+    std::string r;
+    CopyThrows::armed = true;
+    try { dst = src; r += "n"; } catch (LeafThrow&) { r += "c"; }
+    CopyThrows::armed = false;
+    r += std::to_string(dst.blocked()) + std::to_string(dst()) + std::to_string(src.blocked());
+    sigc::slot<long()> cp = src;
+    r += std::to_string(cp.blocked()) + std::to_string(cp());
+    out += " X:" + r;
   }
   printf("fixed sigconn %s\n", out.c_str());
   fflush(stdout);
